@@ -367,7 +367,7 @@ def _generator_rule(db, rep):
     bad, cases = None, 0
     try:
         for taken in ([], [1], [2], [1, 2]):
-            for draws in itertools.product((1, 2), repeat=2):
+            for draws in itertools.product((1, 2), repeat=(4 if rep.tier == 'thorough' else 2)):
                 script = list(draws) + [3]
                 cases += 1
                 this = Obj(entities=set(taken), distribution=Obj(__kind__='dist'))
